@@ -5,6 +5,10 @@ VERIF = os.path.dirname(os.path.dirname(os.path.abspath(__file__)))
 ALL = ['C%02d' % i for i in range(1, 21)]
 
 CLAIMED = {
+ 'C03': dict(
+    text="Theorems (Coq, all declarations, inputs, values, all option combinations): the model of the code generator (gen_blocks: group by fixedness, struct code, endianness iff vectorize) executed block by block yields the same values, end offset and consumed chunks as the generic field loop and fails on exactly the same inputs; pack yields buffers with the same content (hence the same bytes) and fails on the same values, provided every Data(n) holds n bytes (else the refutation witness C03_refuted_data_len = finding D11). Tie: per generated module, the text bisturi wrote is read back and its block structure compared with gen_blocks inside Coq (translation validation of every class compiled by the check); model and implementation run the same parses/packs under 4 (quick) or 16 (thorough) option combinations; combinations are compared pairwise on the implementation.",
+    note="Trusted: Coq kernel + vm_compute; the meaning of the three-line templates of generated code and of python's struct module (modelled by struct_unpack/struct_pack); harness reader of generated modules; annotate only adds comments (not modelled).",
+    technique="Coq equivalence proof generated-vs-generic interpreters + per-module translation validation against the model + vm_compute correspondence", design="8/C03"),
  'C05': dict(
     text="Theorems (Coq, all widths n>=1, all byte patterns, all integers) on the integer codec model: encode/decode are mutually inverse on exactly n bytes, out-of-range is an error, the value is the positional two's-complement value in the stated order, short slices never decode, endianness resolution table. The model is tied to bisturi/field.py on every run by the regenerated kernel G6_int + bridge lemmas and by running model and implementation on ~10^5 cases (exhaustive for 1-byte widths, lane/boundary-exhaustive above, both code paths, all endianness spellings).",
     note="Trusted: Coq kernel + vm_compute; harness/pygen.py; the case generator/renderer; CPython's struct/int.from_bytes/to_bytes are modelled by one codec (that they agree with it is what Tie B checks, by sampling above n=1).",
